@@ -536,8 +536,8 @@ VARIANTS = [
             "    names = \", \".join(\n        sorted(\n            alias.name if alias.asname is None else f\"{alias.name} as {alias.asname}\"\n            for alias in node.names\n            if (alias.name if alias.asname is None else alias.asname) not in unused_imports\n    ))",
             "    names = \", \".join(\n        {\n            alias.name if alias.asname is None else f\"{alias.name} as {alias.asname}\"\n            for alias in node.names\n            if (alias.name if alias.asname is None else alias.asname) not in unused_imports\n    })"),
     Variant("missing-imports-after-sort", "FIRE", "main",
-            "    if minimum_indent == 0:\n        source = fixes.add_missing_imports(source)\n        if not keep_imports:\n            source = fixes.remove_unused_imports(source)\n\n    source = fixes.sort_imports(source)\n",
-            "    source = fixes.sort_imports(source)\n\n    if minimum_indent == 0:\n        source = fixes.add_missing_imports(source)\n        if not keep_imports:\n            source = fixes.remove_unused_imports(source)\n", "R6.3"),
+            "    if minimum_indent == 0:\n        source = fixes.add_missing_imports(source)\n        if not keep_imports:\n            source = fixes.remove_unused_imports(source, preserve=preserve)\n\n    source = fixes.sort_imports(source)\n",
+            "    source = fixes.sort_imports(source)\n\n    if minimum_indent == 0:\n        source = fixes.add_missing_imports(source)\n        if not keep_imports:\n            source = fixes.remove_unused_imports(source, preserve=preserve)\n", "R6.3"),
     Variant("most-common-of-set", "FIRE", "processing",
             "            most_common_original_formatting = collections.Counter(\n                original_string_formattings[node.value]\n            ).most_common(1)[0][0]",
             "            most_common_original_formatting = collections.Counter(\n                set(original_string_formattings[node.value])\n            ).most_common(1)[0][0]", "R6.3"),
